@@ -1,7 +1,221 @@
-"""Model correspondence for C10/C11: Model/DistPrim.v (binary64 instance, vm_compute inside
-coqc) against the implementation on the same inputs."""
+"""Model correspondence for C10/C11: Model/DistPrim.v (binary64 instance Model/DistPrimRun.v,
+vm_compute inside coqc) against the implementation on the same inputs.
+
+For every generated case of a modelled function the model is evaluated on exactly the floats
+the implementation received; compared are ALL observables the function returns: d and both
+closest points (one for point_to_X), each within CORR_TOL * L (closed forms; the only
+differences are the summation order of BLAS dot/nrm2 and fused multiply-adds).  A mismatch is
+re-examined: the model is re-run on inputs perturbed by a few ulps; if its arm tag or its
+result moves by more than the tolerance under such a perturbation the case sits on a branch
+boundary / is ill-conditioned ("margin-unclear": counted, not an alarm -- the property oracle
+has judged the implementation's result for that input anyway).  A mismatch on a stable case is
+a broken correspondence (the targeted search of the caller then looks for a property failure).
+The arm tags reached by the model are accumulated as MODEL BRANCH COVERAGE per function and
+compared with the list of arms that exist (holes are printed into the evidence).
+"""
+import math
+import re
+import json
+
+from .. import common as cm
+from .. import primlib as pl
+
+CORR_TOL = 1e-9      # * L, on d and on every coordinate of the returned points
+EPS6 = 1e-6
+
+# arms that exist per modelled function (tags of Model/DistPrim.v); "reachable" in domain P:
+# arms only taken for degenerate (out-of-domain) inputs are listed separately and not counted as holes
+ARMS = {
+    "point_to_line": [0], "point_to_line_segment": [0], "point_to_plane": [0],
+    "point_to_triangle": [1, 2, 3, 4, 5, 6, 7],
+    "point_to_rectangle": [0], "point_to_box": [0], "point_to_disk": [0],
+    "point_to_circle": [0, 1], "point_to_cylinder": [0],
+    "line_to_line": [0, 1],
+    "line_to_line_segment": [3, 4],
+    "line_segment_to_line_segment": [10, 11, 12, 20, 21, 22],
+    "line_to_plane": [0], "line_segment_to_plane": [0, 1, 2, 3], "plane_to_plane": [0],
+    "plane_to_triangle": [0, 1], "plane_to_rectangle": [0, 1], "plane_to_box": [0, 1],
+}
+OUT_OF_DOMAIN_ARMS = {
+    "line_to_line_segment": [0, 1, 2], "line_segment_to_line_segment": [0, 1, 2],
+}
+MODELLED = list(ARMS)
+
+HEADER = """From Coq Require Import List PrimFloat.
+From D3 Require Import Base.Ops Base.Vec Model.DistPrimRun.
+Import ListNotations.
+Open Scope float_scope.
+"""
+
+
+def fx(x):
+    return cm.fhex(float(x))
+
+
+def v(x):
+    return "(V " + " ".join(fx(t) for t in x) + ")"
+
+
+def pose(p):
+    return "(mkP " + " ".join(fx(p[i][j]) for i in range(3) for j in range(3)) + " " + " ".join(fx(p[i][3]) for i in range(3)) + ")"
+
+
+def prim_expr(p):
+    k = p["kind"]
+    if k == "point":
+        return v(p["p"])
+    if k == "line":
+        return f"{v(p['p'])} {v(p['d'])}"
+    if k == "line_segment":
+        return f"{v(p['s'])} {v(p['e'])}"
+    if k == "plane":
+        return f"{v(p['p'])} {v(p['n'])}"
+    if k == "triangle":
+        return " ".join(v(t) for t in p["pts"])
+    if k == "rectangle":
+        return f"{v(p['c'])} {v(p['axes'][0])} {v(p['axes'][1])} {fx(p['lengths'][0])} {fx(p['lengths'][1])}"
+    if k in ("disk", "circle"):
+        return f"{v(p['c'])} {fx(p['r'])} {v(p['n'])}"
+    if k == "box":
+        return f"{pose(p['pose'])} {v(p['size'])}"
+    if k == "cylinder":
+        return f"{pose(p['pose'])} {fx(p['r'])} {fx(p['l'])}"
+    raise KeyError(k)
+
+
+EPS_ARG = {"point_to_circle", "line_to_line", "line_to_line_segment", "line_segment_to_line_segment",
+           "line_to_plane", "line_segment_to_plane", "plane_to_plane"}
+
+
+def model_expr(case):
+    fn = case["fn"]
+    e = f"r_{fn} {prim_expr(case['A'])} {prim_expr(case['B'])}"
+    if fn in EPS_ARG:
+        e += " " + fx(EPS6)
+    return e
+
+
+def parse(o):
+    s = o.replace("%float", "").replace("%nat", "")
+    s = re.sub(r"\((-[0-9][0-9.e+-]*)\)", r"\1", s)
+    s = s.replace("(", "[").replace(")", "]").replace(";", ",")
+    s = re.sub(r"\bneg_infinity\b", "-1e999", s)
+    s = re.sub(r"\binfinity\b", "1e999", s)
+    s = re.sub(r"\bnan\b", "NaN", s)
+    vals, arm = json.loads(s)
+    return [float(x) for x in vals], int(arm)
+
+
+def impl_obs(case, r):
+    d = float.fromhex(r["d"])
+    pts = [[float.fromhex(x) for x in p] for p in r["pts"]]
+    return [d] + [x for p in pts for x in p]
+
+
+def nudge(x, k):
+    for _ in range(abs(k)):
+        x = math.nextafter(x, math.inf if k > 0 else -math.inf)
+    return x
+
+
+def perturb(rng, obj):
+    """the same primitive with every float moved by -2..2 ulps"""
+    if isinstance(obj, dict):
+        return {k: (perturb(rng, w) if k != "kind" else w) for k, w in obj.items()}
+    if isinstance(obj, list):
+        return [perturb(rng, w) for w in obj]
+    if isinstance(obj, float):
+        return nudge(obj, rng.choice([-2, -1, 0, 1, 2]))
+    return obj
+
+
+def maxdiff(a, b):
+    if len(a) != len(b):
+        return math.inf
+    m = 0.0
+    for x, y in zip(a, b):
+        if math.isnan(x) and math.isnan(y):
+            continue
+        if math.isnan(x) or math.isnan(y):
+            return math.inf
+        if x == y:
+            continue
+        m = max(m, abs(x - y))
+    return m
 
 
 def correspondence(R, pid, cases, results, tier):
-    R.cov["modelled"] = []
-    return
+    R.cov["modelled"] = MODELLED
+    idx = [i for i, c in enumerate(cases) if c["fn"] in ARMS and "exc" not in results[i]]
+    exprs = [model_expr(cases[i]) for i in idx]
+    try:
+        outs = cm.coq_eval_lines(pid, HEADER, exprs, tag="model", per_file=max(20, len(exprs) // (2 * cm.NCPU) + 1))
+    except RuntimeError as e:
+        R.corr_broken.append(f"model evaluation failed: {str(e)[:400]}")
+        return
+    arms = {fn: {} for fn in ARMS}
+    worst = {}
+    mism = []
+    for i, o in zip(idx, outs):
+        c, r = cases[i], results[i]
+        mv, arm = parse(o)
+        arms[c["fn"]][arm] = arms[c["fn"]].get(arm, 0) + 1
+        L = pl.scale_L(c["A"], c["B"])
+        df = maxdiff(mv, impl_obs(c, r)) / L
+        w = worst.setdefault(c["fn"], 0.0)
+        if df <= CORR_TOL:
+            worst[c["fn"]] = max(w, df)
+        else:
+            mism.append((i, mv, arm, df))
+    # re-examine mismatches: stable under a few-ulp perturbation of the input?
+    unclear = 0
+    real = []
+    if mism:
+        K = 6
+        pex, owner = [], []
+        for (i, mv, arm, df) in mism[:200]:
+            c = cases[i]
+            for _ in range(K):
+                pc = dict(fn=c["fn"], A=perturb(R.rng, c["A"]), B=perturb(R.rng, c["B"]))
+                pex.append(model_expr(pc))
+                owner.append(i)
+        try:
+            pouts = cm.coq_eval_lines(pid, HEADER, pex, tag="model_pert", per_file=max(20, len(pex) // (2 * cm.NCPU) + 1))
+        except RuntimeError as e:
+            R.corr_broken.append(f"model evaluation (perturbed) failed: {str(e)[:300]}")
+            pouts = []
+        moved = {}
+        for i, o in zip(owner, pouts):
+            moved.setdefault(i, []).append(parse(o))
+        for (i, mv, arm, df) in mism[:200]:
+            c = cases[i]
+            L = pl.scale_L(c["A"], c["B"])
+            unstable = any(a2 != arm or maxdiff(mv, v2) / L > CORR_TOL for v2, a2 in moved.get(i, []))
+            if unstable:
+                unclear += 1
+            else:
+                real.append((i, mv, arm, df))
+        real += mism[200:]
+    R.cov["model_evaluations"] = len(idx)
+    R.cov["model_vs_impl_tolerance"] = f"{CORR_TOL} * L on d and on every coordinate of every returned point"
+    R.cov["model_vs_impl_worst_relative_diff"] = {k: float(f"{x:.3e}") for k, x in worst.items()}
+    R.cov["model_margin_unclear"] = unclear
+    R.cov["model_mismatches"] = len(real)
+    cov = {}
+    holes = {}
+    for fn in ARMS:
+        cov[fn] = {str(a): arms[fn].get(a, 0) for a in ARMS[fn] + OUT_OF_DOMAIN_ARMS.get(fn, [])}
+        h = [a for a in ARMS[fn] if not arms[fn].get(a)]
+        if h:
+            holes[fn] = h
+        extra = [a for a in arms[fn] if a not in ARMS[fn] + OUT_OF_DOMAIN_ARMS.get(fn, [])]
+        if extra:
+            R.corr_broken.append(f"model of {fn} reported an unknown arm tag {extra}")
+    R.cov["model_branch_coverage"] = cov
+    R.cov["model_branch_holes"] = holes
+    for (i, mv, arm, df) in real[:5]:
+        c = cases[i]
+        R.corr_broken.append(
+            f"{c['fn']} (stream {c['stream']}, model arm {arm}): model and implementation differ by {df:.3e}*L "
+            f"(model {mv[:4]} impl {impl_obs(c, results[i])[:4]}) case_hash={cm.canon_hash(c)}")
+    R.mismatch_cases = [cases[i] for (i, _, _, _) in real]
